@@ -45,7 +45,8 @@ ASSUMPTIONS = [
     "templates are compiled natively at setup (runtime conditions) or natively per path (syntax conditions)",
     "template file names come from a FunctionLoader returning a distinct filename per template",
 ]
-SUSPECTED_DEFECTS = [
+# repaired in /repo by three 'fix:' commits (see known_findings.json); the slots are no longer flagged
+FIXED_DEFECTS = [
     "compiler.visit_With emits the assignments with self.newline() (no node): an exception raised by the value of "
     "'{% with a = f() %}' is attributed to the previous mapped template line, e.g. '{{ 1 }}\\n\\n\\n{% with a = f() %}{% endwith %}' "
     "reports line 1 instead of 4 (skeleton 'ext' slot flagged @D)",
@@ -416,7 +417,7 @@ SK["linestmt"] = {"main": """{{ f(@) }}
 SKENV["linestmt"] = dict(line_statement_prefix="#", line_comment_prefix="##")
 
 SK["ext"] = {"main": """{% do f(@) %}
-{% trans x=f(@D) %}
+{% trans x=f(@) %}
   hello {{ x }}
 
 {% endtrans %}
@@ -432,14 +433,14 @@ SK["ext"] = {"main": """{% do f(@) %}
   {{ f(@) }}
   {% continue %}
 {% endfor %}
-{% with a = f(@D), b = 2 %}
+{% with a = f(@), b = 2 %}
   {{ f(@) }}
 {% endwith %}
 {% autoescape true %}
   {{ f(@) }}
 {% endautoescape %}
 
-{% autoescape f(@D) %}
+{% autoescape f(@) %}
   {{ f(@) }}
 {% endautoescape %}
 {% set ns0.v = f(@) %}
